@@ -349,6 +349,72 @@ func runC06(c *an.Ctx) {
 			}
 			c.Check(hdr != "" && itf.AtInstr(call).Has(an.NotB("IsZero("+hdr+")")), "C06.d", "init-adopts-nonzero:"+an.Stable(it.Of(call.Call.Args[0])), "init adopts a pointer only when it resolved to a non-zero header", initFn, call, "", itf.AtInstr(call))
 		})
+		checkEnsureInit(c, "C06.d")
+	}
+}
+
+// checkEnsureInit: a store reopened with one pointer absent (dropped dangling pointer,
+// crash between the header deletion and the pointer move) heals on the next append only
+// if ensureInit fills in each unset pointer independently: the initialisation of a
+// pointer is guarded by nothing but "headers is non-empty" and "this pointer is unset",
+// and the value adopted is the last (head) / first (tail) appended header.
+func checkEnsureInit(c *an.Ctx, id string) {
+	p := c.P
+	fn := p.Method("store", "Store", "ensureInit")
+	if !c.Need(fn, id, "store.(*Store).ensureInit") {
+		return
+	}
+	t, ff := c.T(fn), c.F(fn)
+	want := map[string]string{"contiguousHead": "p1[(len(p1)-1)]", "tailHeader": "p1[0]"}
+	seen := map[string]bool{}
+	an.Instrs(fn, func(in ssa.Instruction) {
+		call, isCall := in.(*ssa.Call)
+		if !isCall || !strings.HasSuffix(an.StaticFullName(&call.Call), "atomic.Pointer[T]).CompareAndSwap") {
+			return
+		}
+		field := ""
+		for _, f := range []string{"contiguousHead", "tailHeader"} {
+			if isRecvFieldVia(t, call.Call.Args[0], f) || an.Stable(t.Of(call.Call.Args[0])) == "&p0."+f {
+				field = f
+			}
+		}
+		if field == "" {
+			return
+		}
+		seen[field] = true
+		old := t.Of(call.Call.Args[1])
+		oldIsOwnLoad := false
+		if lc, isLoad := call.Call.Args[1].(*ssa.Call); isLoad && strings.HasSuffix(an.StaticFullName(&lc.Call), "atomic.Pointer[T]).Load") {
+			oldIsOwnLoad = an.Stable(t.Of(lc.Call.Args[0])) == an.Stable(t.Of(call.Call.Args[0]))
+		}
+		c.Check(oldIsOwnLoad, id, "ensure-init-cas-from-unset:"+field, "ensureInit swaps a pointer in only against the value it loaded from that same pointer", fn, call, "old "+an.Stable(old), nil)
+		var extra []string
+		hasUnset := false
+		for _, f := range ff.AtRefined(call.Block()) {
+			s := f.String()
+			switch {
+			case f == an.EQ(old, "nil"):
+				hasUnset = true
+			case strings.Contains(s, "len(p1)") && !strings.Contains(s, "p0."):
+			default:
+				extra = append(extra, an.Stable(s))
+			}
+		}
+		c.Check(hasUnset && len(extra) == 0, id, "ensure-init-independent:"+field,
+			"ensureInit initialises the "+field+" pointer whenever it is unset and headers were appended, independent of any other state", fn, call,
+			"other guards: "+strings.Join(extra, ", "), ff.AtRefined(call.Block()))
+		val := ""
+		if al, isAl := call.Call.Args[2].(*ssa.Alloc); isAl {
+			for _, s := range an.AllocStores(al) {
+				val = an.Stable(t.Of(s.Val))
+			}
+		}
+		c.Check(val == want[field], id, "ensure-init-value:"+field, "ensureInit adopts the last appended header as head and the first as tail", fn, call, "value "+val, nil)
+	})
+	for _, f := range []string{"contiguousHead", "tailHeader"} {
+		if !seen[f] {
+			c.Fail(id, "ensure-init-present:"+f, "ensureInit initialises the "+f+" pointer", fn, nil, "no CompareAndSwap on the field", nil)
+		}
 	}
 }
 
